@@ -93,7 +93,11 @@ func c14BuildZip(es []c14Ent, method uint16) (afero.Fs, error) {
 	var buf bytes.Buffer
 	w := zip.NewWriter(&buf)
 	for _, e := range es {
-		fw, err := w.CreateHeader(&zip.FileHeader{Name: e.name, Method: method})
+		hdr := &zip.FileHeader{Name: e.name, Method: method}
+		if e.dir { // a directory entry is marked by its mode bits; most writers also end its name in a slash, some do not
+			hdr.SetMode(os.ModeDir | 0o755)
+		}
+		fw, err := w.CreateHeader(hdr)
 		if err != nil {
 			return nil, err
 		}
@@ -995,6 +999,12 @@ func c14Corpus() []corr.Case {
 		dots := []c14Ent{file("notes..old.txt", "n"), dir("rel/v1..v2/"), file("rel/v1..v2/changes.diff", "diff"), file("..hidden", "h"), file("a/../b.txt", "b")}
 		cs = append(cs, c14Case(k, dots, "stat "+hp("notes..old.txt"), "open "+hp("rel/v1..v2/changes.diff"), "h.read 0 9", "stat "+hp("..hidden"), "stat "+hp("b.txt"),
 			"open "+hp("/"), "h.readdirnames 1 -1", "open "+hp("rel"), "h.readdirnames 2 -1", "open "+hp("rel/v1..v2"), "h.readdirnames 3 -1"))
+	}
+	// zip directories written without the trailing slash (marked by their mode bits only), explicit and empty
+	for _, k := range []string{"zip-store", "zip-deflate"} {
+		noslash := []c14Ent{file("a.txt", "hello"), dir("d"), file("d/x", "xyz"), dir("e"), dir("sub/deep"), file("sub/deep/y", "yy")}
+		cs = append(cs, c14Case(k, noslash, "stat "+hp("d"), "open "+hp("d"), "h.readdirnames 0 -1", "h.read 0 4", "stat "+hp("e"), "open "+hp("e"), "h.readdir 1 -1", "h.readdirnames 1 0",
+			"open "+hp("sub/deep"), "h.readdirnames 2 -1", "open "+hp("/"), "h.readdirnames 3 -1", "stat "+hp("sub")))
 	}
 	// simultaneous handles in different goroutines on a fresh archive
 	for _, k := range c14Kinds {
